@@ -2,7 +2,7 @@
    Only statements here; each is closed by [exact] of a lemma proved under coq/Addr/. *)
 From CSL Require Import Base.Prelude Cbor.Head Addr.VarNat Addr.VarNatProofs Addr.Crc32 Addr.Crc32Proofs
   Addr.Byron Addr.ByronProofs Addr.Base58 Addr.Base58Proofs Addr.Shelley Addr.ShelleyProofs
-  Addr.Bech32Iface Addr.Bech32Proofs Addr.Check Addr.CheckProofs.
+  Addr.Bech32Iface Addr.TextProofs Addr.Check Addr.CheckProofs.
 Local Open Scope N_scope.
 
 (* ---- raw bytes: every address with network id 0-15 (base, pointer, enterprise, reward; key or
